@@ -4,7 +4,7 @@
     subsume those about the core grammar. *)
 From Coq Require Import NArith List Bool Arith Lia.
 From PLV Require Import Base.PyStr Tok.PState Tok.Tokenizer Parse.Nodes Parse.Parser Parse.ParseWire
-                        Doc.DocGrammar Doc.DocGrammar2 Proofs.RoundTrip Proofs.RoundTrip2.
+                        Doc.DocGrammar Doc.DocGrammar2 Proofs.RoundTripTok Proofs.RoundTrip2Tok Proofs.RoundTrip Proofs.RoundTrip2.
 Import ListNotations.
 
 Lemma forallb_ext' {A} (f g : A -> bool) l : (forall x, f x = g x) -> forallb f l = forallb g l.
@@ -83,8 +83,9 @@ Section Embed.
     pose proof (ok_list n IH) as OL. pose proof (ok_args_up n IH) as OA.
     destruct i as [ws cs|ws b tr|ws name post args|ws k b tr|ws text post|ws mid]; cbn [isize] in SZ.
     - cbn [ok_item] in H. cbn [up_item ok_item2].
-      rewrite (forallb_ext' (fun c => inert cx c && negb (mem_c c [])) (inert cx)); [exact H|].
-      intros c. cbn [mem_c existsb negb]. apply andb_true_r.
+      apply andb_true_iff in H. destruct H as [H IN]. rewrite H. cbn [andb].
+      clear H. induction cs as [|c cs IHc]; [reflexivity|]. cbn [forallb] in IN. apply andb_true_iff in IN.
+      cbn [text_ok]. rewrite (inert_char_ok cx c _ (proj1 IN)). apply IHc. tauto.
     - fold (lsize b) in SZ. rewrite ok_item_grp in H. cbn [up_item]. rewrite ok_item_grp2.
       apply andb_true_iff in H. destruct H as [H HB]. rewrite H. cbn [andb].
       apply OL; [lia|]. destruct tr; exact HB.
